@@ -71,6 +71,21 @@ template <class S> struct Acc<manif::SGal3<S> > {
   template <class A, class B> static bool set_from(A&, const B&, int) { return false; }
 };
 
+// Bundle: every element view (first, second, last are enough for the layouts in use; BundleSize >= 3)
+template <class S, template <typename> class... T> struct Acc<manif::Bundle<S, T...> > {
+  typedef manif::Bundle<S, T...> B;
+  enum { L = (int)sizeof...(T) - 1 };
+  template <class A> static bool read(const A& a, Collector& c) {
+    const typename B::template MapConstElement<0> e0(a.template element<0>());
+    const typename B::template MapConstElement<1> e1(a.template element<1>());
+    const typename B::template MapConstElement<L> el(a.template element<L>());
+    c.m(e0.coeffs()); c.m(e1.coeffs()); c.m(el.coeffs());
+    c.m(e0.inverse().coeffs()); c.m(el.log().coeffs());
+    return true;
+  }
+  template <class A, class BB> static bool set_from(A&, const BB&, int) { return false; }   // element writes: OP_M_SUBVIEW_WRITE
+};
+
 // ---- tangents ---------------------------------------------------------------------------------------------------
 template <class T> struct TAcc {
   template <class A> static bool read(const A&, Collector&) { return false; }
@@ -101,6 +116,34 @@ template <class S> struct TAcc<manif::SGal3Tangent<S> > {
   template <class A, class B> static bool set_from(A& a, const B& b) {
     a.lin() = b.lin(); a.lin2() = b.lin2(); a.ang() = b.ang(); a.coeffs()(9) = b.t(); return true;
   }
+};
+
+template <class S, template <typename> class... T> struct TAcc<manif::BundleTangent<S, T...> > {
+  typedef manif::BundleTangent<S, T...> BT;
+  enum { L = (int)sizeof...(T) - 1 };
+  template <class A> static bool read(const A& a, Collector& c) {
+    const typename BT::template MapConstElement<0> e0(a.template element<0>());
+    const typename BT::template MapConstElement<1> e1(a.template element<1>());
+    const typename BT::template MapConstElement<L> el(a.template element<L>());
+    c.m(e0.coeffs()); c.m(e1.coeffs()); c.m(el.coeffs()); c.m(e1.hat());
+    return true;
+  }
+  template <class A, class BB> static bool set_from(A& a, const BB& b) {
+    // element-wise copy through the mutable element views: a becomes b
+    { const typename BT::template MapConstElement<0> s0(b.template element<0>()); typename BT::template MapElement<0> d0(a.template element<0>()); d0 = s0; }
+    { const typename BT::template MapConstElement<1> s1(b.template element<1>()); typename BT::template MapElement<1> d1(a.template element<1>()); d1 = s1; }
+    copy_rest(a, b, std::integral_constant<bool, (L >= 2)>());
+    return true;
+  }
+  template <class A, class BB> static void copy_rest(A& a, const BB& b, std::true_type) {
+    { const typename BT::template MapConstElement<L> sl(b.template element<L>()); typename BT::template MapElement<L> dl(a.template element<L>()); dl = sl; }
+    copy_mid(a, b, std::integral_constant<bool, (L >= 3)>());
+  }
+  template <class A, class BB> static void copy_rest(A&, const BB&, std::false_type) {}
+  template <class A, class BB> static void copy_mid(A& a, const BB& b, std::true_type) {
+    const typename BT::template MapConstElement<2> s2(b.template element<2>()); typename BT::template MapElement<2> d2(a.template element<2>()); d2 = s2;
+  }
+  template <class A, class BB> static void copy_mid(A&, const BB&, std::false_type) {}
 };
 
 }  // namespace vsim
